@@ -156,6 +156,7 @@ class Func:
     def validate(self, d, x):         self.st("val", d=d, a=x)          # d bool
     def validate_err(self, d, x):     self.st("valerr", d=d, a=x)       # d error (nil = validated)
     def probe(self, x):               self.st("probe", a=x)
+    def not_(self, d, x):             self.st("not", d=d, a=x)            # d = !x (bools)
     def copy(self, d, x):             self.st("copy", d=d, a=x)
     def lit(self, d, text="lit"):     self.st("lit", d=d, text=text)
     def cat(self, d, x, y):           self.st("cat", d=d, a=x, b=y)       # y may be "_" (literal)
@@ -754,6 +755,10 @@ class Prog:
                 p = self._use(f, code, s["p"]); d, post = self._def(f, code, s["d"])
                 ln = self._line("%s%s = <-%s" % (tab, s["d"], s["p"]) if s["d"] not in ("", "_") else "%s<-%s" % (tab, s["p"]))
                 code.append(I("recv", d=d, a=[p], n=ln)); post()
+            elif k == "not":
+                a = self._use(f, code, s["a"]); d, post = self._def(f, code, s["d"])
+                self._line("%s%s = !%s" % (tab, s["d"], s["a"]))
+                code.append(I("not", d=d, a=[a])); post()
             elif k == "selrecv":
                 # the quit channel is never ready and the data channel holds one element: the select takes the receive
                 p = self._use(f, code, s["p"]); d, post = self._def(f, code, s["d"])
